@@ -213,7 +213,8 @@ Extend(st) == /\ phase = "grow" /\ Len(path) < MaxSteps
                    /\ ~(r.v \in DOMAIN StrLeaf /\ st.t \in {"idx", "slice"})
                    /\ ~(r.v # "nil" /\ Obj(r.v).k = "nilptr" /\ st.t = "call")
               /\ path' = Append(path, st) /\ UNCHANGED <<root, phase>>
-Finish == phase = "grow" /\ path # <<>> /\ phase' = "done" /\ UNCHANGED <<root, path>>
+\* the empty path is the root variable itself (a nil Execute variable still shadows a global of its name)
+Finish == phase = "grow" /\ phase' = "done" /\ UNCHANGED <<root, path>>
 Next == Finish \/ \E st \in Steps : Extend(st)
 Spec == Init /\ [][Next]_vars
 Done == phase = "done"
